@@ -6,7 +6,8 @@
     Specification: Chess/Spec.v (mailbox-style FIDE rules). *)
 From Coq Require Import ZArith NArith List Bool.
 From Texel Require Import Chess.Types Chess.Position Chess.BitBoard Chess.MoveGen Chess.Spec Chess.MoveGenWF
-  Chess.BitBoardProofs Chess.RayProofs Chess.MagicSweep Chess.MagicProofs Chess.MoveGenProofs gen.BitBoardTables.
+  Chess.BitBoardProofs Chess.RayProofs Chess.MagicSweep Chess.MagicProofs Chess.MoveGenProofs Chess.AttackProofs
+  Chess.SliderProofs Chess.PawnProofs Chess.PseudoProofs gen.BitBoardTables.
 Import ListNotations.
 Local Open Scope N_scope.
 
@@ -64,24 +65,63 @@ Print Assumptions C01_magic.
     iff it was there before or it is (sq, t) for a set bit sq of mask and a set bit t of g(sq)
     (any 64-bit mask; the fuel of the model's loop always suffices). *)
 Theorem C01_bit_loops : forall (g : square -> N) mask l0 m,
-  mask < 2 ^ 64 -> (forall sq, g sq < 2 ^ 64) ->
+  mask < 2 ^ 64 -> (forall sq, sq < 64 -> g sq < 2 ^ 64) ->
   (In m (forSquares mask (fun l sq => addMovesByMask l sq (g sq)) l0) <->
    In m l0 \/ exists sq t, N.testbit mask sq = true /\ N.testbit (g sq) t = true /\ m = mkMove sq t EMPTY).
 Proof. exact forSquares_moves_In. Qed.
 Print Assumptions C01_bit_loops.
 
-(** Step pieces (partial form of C01_legal_exact, level L2/L4 of the proof plan): in a
-    well-formed position the knight block and the king block (without castling) of
-    pseudoLegalMoves generate exactly the Spec's pseudo-moves of those pieces. *)
-Theorem C01_step_pieces_partial : forall p m, WF p ->
-  (In m (knightBlock (whiteMove p) p []) <->
-   exists f r, on_board f r = true /\ at_ (squares p) f r = mk_piece (whiteMove p) Knight /\
-               In m (step_moves (squares p) (whiteMove p) f r knight_offsets)) /\
-  (In m (kingBlock (whiteMove p) p []) <->
-   exists f r, on_board f r = true /\ at_ (squares p) f r = mk_piece (whiteMove p) King /\
-               In m (step_moves (squares p) (whiteMove p) f r king_offsets)).
-Proof. exact step_blocks_spec. Qed.
-Print Assumptions C01_step_pieces_partial.
+(** The engine's attack test = the Spec's, on every square of every well-formed position and
+    for either side; hence "in check" means the same in both worlds. *)
+Theorem C01_inCheck : forall p, WF p ->
+  inCheck p = in_checkb (squares p) (whiteMove p) /\
+  forall wtm sq, sq < 64 ->
+    sqAttackedT wtm p sq (occupiedBB p) = attacked_by (squares p) (negb wtm) (zf sq) (zr sq).
+Proof. exact (fun p H => conj (inCheck_spec p H) (fun wtm sq Hs => sqAttacked_spec p wtm sq H Hs)). Qed.
+Print Assumptions C01_inCheck.
+
+(** Every piece block of pseudoLegalMoves generates exactly the Spec's pseudo-moves of that
+    piece kind (queen, rook, bishop, knight, king without castling, pawn incl. double push,
+    en passant and the four promotions), for every well-formed position. *)
+Theorem C01_piece_blocks : forall p m, WF p ->
+  let w := whiteMove p in let b := squares p in
+  let on k (moves : Z -> Z -> list move) :=
+    exists f r, on_board f r = true /\ at_ b f r = mk_piece w k /\ In m (moves f r) in
+  (In m (queenBlock w p []) <-> on Queen (fun f r => slider_moves b w f r (rook_dirs ++ bishop_dirs))) /\
+  (In m (rookBlock w p []) <-> on Rook (fun f r => slider_moves b w f r rook_dirs)) /\
+  (In m (bishopBlock w p []) <-> on Bishop (fun f r => slider_moves b w f r bishop_dirs)) /\
+  (In m (knightBlock w p []) <-> on Knight (fun f r => step_moves b w f r knight_offsets)) /\
+  (In m (kingBlock w p []) <-> on King (fun f r => step_moves b w f r king_offsets)) /\
+  (In m (pawnBlock w p []) <-> on Pawn (fun f r => pawn_moves (abs p) f r)).
+Proof.
+  exact (fun p m H =>
+    match slider_blocks_spec p m H, step_blocks_spec p m H with
+    | conj HR (conj HB HQ), conj HN HK => conj HQ (conj HR (conj HB (conj HN (conj HK (pawnBlock_spec p m H)))))
+    end).
+Qed.
+Print Assumptions C01_piece_blocks.
+
+(** pseudoLegalMoves = the Spec's pseudo-moves as sets.  The only difference between the two
+    notions of pseudo-legal is explicit: the engine's castling moves do not test the king's
+    target square (the legality filter does); [pseudo_moves_engine] is the Spec's list with
+    exactly that test removed ([castle_moves_pseudo]).  Consequently no legal move of chess
+    is missing from the engine's pseudo-legal list. *)
+Theorem C01_pseudo_exact : forall p m, WF p ->
+  (In m (pseudoLegalMoves p) <-> In m (pseudo_moves_engine (abs p))) /\
+  (In m (pseudo_moves (abs p)) -> In m (pseudoLegalMoves p)) /\
+  (legal_spec (abs p) m -> In m (pseudoLegalMoves p)).
+Proof. exact pseudo_exact_all. Qed.
+Print Assumptions C01_pseudo_exact.
+
+(** the relaxed castling list vs the Spec's: same moves, plus "target square not attacked" *)
+Theorem C01_castling_relaxation : forall sp m,
+  In m (castle_moves sp) <->
+  In m (castle_moves_pseudo sp) /\
+  let r := (if sp_white sp then 0 else 7)%Z in
+  (m = mv 4 r 6 r EMPTY -> attacked_by (sp_board sp) (negb (sp_white sp)) 6 r = false) /\
+  (m = mv 4 r 2 r EMPTY -> attacked_by (sp_board sp) (negb (sp_white sp)) 2 r = false).
+Proof. exact castle_moves_relax. Qed.
+Print Assumptions C01_castling_relaxation.
 
 (** the Spec's boolean legality test reflects the relation; the Spec's move list is the set of
     legal moves *)
@@ -118,9 +158,6 @@ Definition C01_captures_checks_complete_statement : Prop :=
 (** gives-check verdict for the moves the engine may play (legal moves) *)
 Definition C01_givesCheck_statement : Prop :=
   forall p m, WF p -> legal_spec (abs p) m -> givesCheck p m = gives_check_spec (abs p) m.
-
-Definition C01_inCheck_statement : Prop :=
-  forall p, WF p -> inCheck p = in_checkb (squares p) (whiteMove p).
 
 Definition C01_wf_preserved_statement : Prop :=
   forall zk p m, WF p -> legal_spec (abs p) m -> WF (fst (makeMove zk p m)).
